@@ -854,6 +854,163 @@ pub const CBOR_INTS: [u64; 16] = [
     1000,
 ];
 
+/// what a hostile string may start with: the prefixes the library tests for (and then slices after)
+pub const HOSTILE_PREFIX: [&str; 28] = [
+    "", "", "!", "!", "!", "!A", "!D", "!K", "!R", "!S", "!!", "_:", "_", "http", "http:", "http://", "https://", "file://", "urn:", "#", "@", "-", ".", "/", ";", "\u{feff}", "!\u{301}", " ",
+];
+
+/// the hostile alphabet: upper / lower / title case letters, digits and marks of 1, 2, 3 and 4 bytes, and the
+/// separators of the formats
+pub const HOSTILE_CHARS: [char; 48] = [
+    // 2 bytes
+    'Ü', 'É', 'Ω', 'Д', 'Ď', 'ǅ', 'é', 'ß', 'ı', 'İ', '٣', '\u{301}', '\u{a0}', 'µ',
+    // 3 bytes
+    'Ⅷ', 'Ａ', '９', '日', 'ẞ', '€', '\u{2028}', '\u{200b}', '\u{feff}', 'ﬁ', 'Ⓐ',
+    // 4 bytes
+    '😀', '𝔘', '𝟗', '𐐀', '𐐨', '\u{e0041}',
+    // 1 byte
+    'A', 'Z', 'a', 'x', '0', '1', '9', '!', '_', ':', ';', ',', '/', ' ', '"', '\\', '\u{0}',
+];
+
+/// byte lengths a hostile string is stretched to (just beyond the places where excerpts get cut)
+pub const HOSTILE_FIT: [usize; 8] = [124, 130, 200, 260, 300, 520, 1030, 4100];
+
+#[derive(Clone, Debug, Serialize, Deserialize, PartialEq, Default)]
+pub struct HStr {
+    /// HOSTILE_PREFIX[pre]
+    pub pre: u8,
+    /// indices into HOSTILE_CHARS
+    pub body: Vec<u8>,
+    /// 0: nothing, else TEMP_N[num-1] appended
+    pub num: u8,
+    /// 0: as is, else the body is repeated until the string has at least HOSTILE_FIT[fit-1] bytes
+    pub fit: u8,
+}
+
+impl HStr {
+    pub fn render(&self) -> String {
+        let mut s = HOSTILE_PREFIX[self.pre as usize % HOSTILE_PREFIX.len()].to_string();
+        let ch = |i: u8| HOSTILE_CHARS[i as usize % HOSTILE_CHARS.len()];
+        for i in &self.body {
+            s.push(ch(*i));
+        }
+        if self.fit > 0 {
+            let want = HOSTILE_FIT[(self.fit as usize - 1) % HOSTILE_FIT.len()];
+            // (an empty body is stretched with a 2-, a 3- and a 4-byte character)
+            let cycle: Vec<char> = if self.body.is_empty() { vec!['é', '日', '😀'] } else { self.body.iter().map(|i| ch(*i)).collect() };
+            let mut k = 0;
+            while s.len() < want {
+                s.push(cycle[k % cycle.len()]);
+                k += 1;
+            }
+        }
+        if self.num > 0 {
+            s.push_str(TEMP_N[(self.num as usize - 1) % TEMP_N.len()]);
+        }
+        s
+    }
+}
+
+/// classification of a string that was put into a document (for the label counts)
+pub fn string_features(s: &str, out: &mut Vec<String>) {
+    let mut push = |l: &str| {
+        let l = format!("str:{}", l);
+        if !out.contains(&l) {
+            out.push(l);
+        }
+    };
+    if !s.is_ascii() {
+        push("non-ascii");
+    }
+    if let Some(rest) = s.strip_prefix('!') {
+        match rest.chars().next() {
+            None => push("bang+nothing"),
+            Some(c) if !c.is_ascii() && c.is_uppercase() => push("bang+multibyte-upper"),
+            Some(c) if !c.is_ascii() => push("bang+multibyte-other"),
+            Some(c) if c.is_ascii_uppercase() => {
+                let tail = &rest[1..];
+                if tail.is_empty() {
+                    push("bang+letter");
+                } else if tail.bytes().all(|b| b.is_ascii_digit()) {
+                    push("bang+letter+digits");
+                } else if !tail.is_ascii() {
+                    push("bang+letter+multibyte");
+                } else {
+                    push("bang+letter+other");
+                }
+            }
+            Some(_) => push("bang+ascii-other"),
+        }
+    }
+    for p in ["_:", "http", "file://", "urn:", "#", "@"] {
+        if let Some(rest) = s.strip_prefix(p) {
+            if rest.chars().next().map(|c| !c.is_ascii()).unwrap_or(false) {
+                push("prefix+multibyte");
+            }
+        }
+    }
+    if s.contains(';') && !s.is_ascii() {
+        let b = s.as_bytes();
+        if (0..b.len()).any(|i| b[i] == b';' && ((i > 0 && b[i - 1] >= 0x80) || (i + 1 < b.len() && b[i + 1] >= 0x80))) {
+            push("multibyte-next-to-semicolon");
+        }
+    }
+    for at in [120usize, 128, 256, 1024, 4096] {
+        if s.len() > at && !s.is_char_boundary(at) {
+            push(&format!("multibyte-across-byte-{}", at));
+        }
+    }
+    if s.len() >= 120 {
+        push("long");
+    }
+}
+
+/// lengths a CBOR header may announce
+pub const HEAD_LENS: [u64; 30] = [
+    0,
+    1,
+    2,
+    23,
+    24,
+    255,
+    256,
+    65535,
+    65536,
+    65537,
+    1 << 20,
+    1 << 24,
+    1 << 28,
+    (1 << 31) - 1,
+    1 << 31,
+    (1 << 32) - 1,
+    1 << 32,
+    (1 << 32) + 1,
+    1 << 40,
+    1 << 48,
+    1 << 56,
+    1 << 59,
+    1 << 60,
+    (1 << 63) / 24,
+    1 << 62,
+    (1 << 63) - 1,
+    1 << 63,
+    (1 << 63) + 1,
+    u64::MAX - 1,
+    u64::MAX,
+];
+
+#[derive(Clone, Debug, Serialize, Deserialize, PartialEq)]
+pub enum LenChoice {
+    /// real length + d ("a bit more / less than there is")
+    Delta(i8),
+    /// HEAD_LENS[i]
+    Abs(u8),
+    /// real length * 2^k
+    Shift(u8),
+    /// indefinite length (the content is followed by a break)
+    Indef,
+}
+
 #[derive(Clone, Debug, Serialize, Deserialize, PartialEq)]
 pub enum Field {
     /// any node
@@ -870,6 +1027,8 @@ pub enum Field {
     Top,
     /// "@id" of the elements of one kind of list: 0 annotations, 1 data, 2 keys, 3 resources, 4 annotationsets
     IdOf(u8),
+    /// string-valued "value" and "text" members (data values, resource texts)
+    Value,
 }
 
 pub const ID_LISTS: [&str; 5] = ["annotations", "data", "keys", "resources", "annotationsets"];
@@ -891,6 +1050,8 @@ pub enum StrChoice {
     FileName(u16),
     /// name of the file that is being mutated
     OwnFile,
+    /// a string from the hostile alphabet
+    Hostile(HStr),
 }
 
 #[derive(Clone, Debug, Serialize, Deserialize, PartialEq)]
@@ -906,6 +1067,13 @@ pub enum CellChoice {
     DropLast,
     /// the cell repeated n times, ';'-separated
     Repeat(u8),
+    Hostile(HStr),
+    /// cell + ";" + hostile
+    AppendHostile(HStr),
+    /// hostile + ";" + cell
+    PrependHostile(HStr),
+    /// hostile + cell + hostile (no separator)
+    Wrap(HStr, HStr),
 }
 
 #[derive(Clone, Debug, Serialize, Deserialize, PartialEq)]
@@ -934,6 +1102,9 @@ pub enum Mutation {
     FileSelfInclude { file: u16 },
     FileMutualInclude { a: u16, b: u16 },
     FileCopyMain { file: u16 },
+    /// a stand-off file gets a hostile name (its extension kept); via 0: the "@include" members / Filename cells that
+    /// named it follow, 1: they follow as "./name", 2: they keep the old name
+    FileRename { file: u16, name: HStr, via: u8 },
     // ---- bytes
     Truncate { file: u16, at: u16 },
     FlipBit { file: u16, pos: u16, bit: u8 },
@@ -954,7 +1125,15 @@ pub enum Mutation {
     CRetype { nth: u16, to: u8 },
     CStr { nth: u16, val: StrChoice },
     /// change the declared length of the nth array/map/string header without touching the content
+    /// (replays of earlier versions; `CLen` is what the generator produces)
     CHead { nth: u16, delta: i8 },
+    /// one definite-length header (array, map, text, bytes) of the document announces another length; everything
+    /// else is written as it was, so that decoding proceeds up to that header. `class`: None = the nth header of
+    /// the document, Some(c) = the nth header of the c-th distinct path class (see `C::headers`)
+    CLen { class: Option<u16>, nth: u16, len: LenChoice },
+    // ---- all formats: every identifier of the document set renamed consistently to pre + id + post (the
+    // documents still load, now with long non-ASCII identifiers everywhere); with `values` also the string values
+    Rename { pre: HStr, post: HStr, values: bool },
 }
 
 impl Mutation {
@@ -976,6 +1155,7 @@ impl Mutation {
             Mutation::FileSelfInclude { .. } => "file.self-include",
             Mutation::FileMutualInclude { .. } => "file.mutual-include",
             Mutation::FileCopyMain { .. } => "file.copy-main",
+            Mutation::FileRename { .. } => "file.rename",
             Mutation::Truncate { .. } => "bytes.truncate",
             Mutation::FlipBit { .. } => "bytes.flip",
             Mutation::Splice { .. } => "bytes.splice",
@@ -987,7 +1167,8 @@ impl Mutation {
             Mutation::CDelete { .. } | Mutation::CDup { .. } | Mutation::CSwap { .. } => "cbor.structure",
             Mutation::CRetype { .. } => "cbor.retype",
             Mutation::CStr { .. } => "cbor.string",
-            Mutation::CHead { .. } => "cbor.length-prefix",
+            Mutation::CHead { .. } | Mutation::CLen { .. } => "cbor.length-prefix",
+            Mutation::Rename { .. } => "all.rename",
         }
     }
 }
@@ -1004,6 +1185,7 @@ fn field_pred(field: &Field) -> Box<dyn Fn(Option<&str>, &J) -> bool> {
         Field::Ref => Box::new(|k, v| k.map(is_ref_key).unwrap_or(false) && matches!(v, J::Str(_))),
         Field::Type => Box::new(|k, _| k == Some("@type")),
         Field::IdOf(_) => Box::new(|k, _| k == Some("@id")),
+        Field::Value => Box::new(|k, v| matches!(k, Some("value") | Some("text")) && matches!(v, J::Str(_))),
     }
 }
 
@@ -1093,6 +1275,7 @@ fn resolve_str(choice: &StrChoice, docs: &DocSet, own: &str, list_len: usize) ->
         StrChoice::Special(i) => SPECIAL_STR[*i as usize % SPECIAL_STR.len()].to_string(),
         StrChoice::FileName(k) => docs[pick(*k, docs.len())].0.clone(),
         StrChoice::OwnFile => own.to_string(),
+        StrChoice::Hostile(h) => h.render(),
     }
 }
 
@@ -1170,10 +1353,163 @@ fn with_cbor(docs: &mut DocSet, f: impl FnOnce(&mut C, &DocSet) -> bool) -> bool
 
 /// apply one mutation; false when it had nothing to act on
 pub fn apply(docs: &mut DocSet, m: &Mutation) -> bool {
+    apply_l(docs, m, &mut vec![])
+}
+
+/// ';'-separated elements of a CSV cell renamed
+fn rename_list(cell: &str, pre: &str, post: &str) -> String {
+    cell.split(';').map(|e| if e.is_empty() { String::new() } else { format!("{}{}{}", pre, e, post) }).collect::<Vec<_>>().join(";")
+}
+
+/// columns of the STAM CSV files that hold identifiers
+const CSV_ID_COLUMNS: [&str; 9] = ["Id", "AnnotationData", "AnnotationDataSet", "TargetResource", "TargetAnnotation", "TargetDataSet", "TargetKey", "TargetData", "Key"];
+
+/// the same, and `labels` receives what is worth counting about the mutation (which kind of header, which kind of string)
+pub fn apply_l(docs: &mut DocSet, m: &Mutation, labels: &mut Vec<String>) -> bool {
     if docs.is_empty() {
         return false;
     }
     match m {
+        Mutation::Rename { pre, post, values } => {
+            let (pre, post) = (pre.render(), post.render());
+            if pre.is_empty() && post.is_empty() {
+                return false;
+            }
+            let mut any = false;
+            for i in 0..docs.len() {
+                let name = docs[i].0.clone();
+                if name.ends_with(".json") {
+                    let Some(mut j) = J::parse(&docs[i].1) else { continue };
+                    let paths = j.paths(&|k, v| matches!(v, J::Str(_)) && k.map(|k| k == "@id" || is_ref_key(k) || (*values && k == "value")).unwrap_or(false));
+                    for p in &paths {
+                        if let Some(J::Str(s)) = j.at_mut(p) {
+                            *s = format!("{}{}{}", pre, s, post);
+                            any = true;
+                        }
+                    }
+                    if !paths.is_empty() {
+                        docs[i].1 = j.write().into_bytes();
+                    }
+                } else if name.ends_with(".csv") {
+                    let Some(mut rows) = csv_parse(&docs[i].1) else { continue };
+                    if rows.len() < 2 {
+                        continue;
+                    }
+                    let header = rows[0].clone();
+                    let mut hit = false;
+                    for r in rows.iter_mut().skip(1) {
+                        for (c, cell) in r.iter_mut().enumerate() {
+                            let h = header.get(c).map(|h| h.as_str()).unwrap_or("");
+                            if (CSV_ID_COLUMNS.contains(&h) || (*values && h == "Value")) && !cell.is_empty() {
+                                *cell = rename_list(cell, &pre, &post);
+                                hit = true;
+                            }
+                        }
+                    }
+                    if hit {
+                        docs[i].1 = csv_write(&rows).into_bytes();
+                        any = true;
+                    }
+                } else if name.ends_with(".cbor") {
+                    // every text that occurs at least twice outside the configuration (an id and its entry in the id
+                    // map; resource texts and values occur once), file names excepted
+                    let Some(mut c) = C::parse_stam(&docs[i].1) else { continue };
+                    fn count(c: &C, seen: &mut Vec<(String, usize)>) {
+                        match c {
+                            C::Cfg(_) => {}
+                            C::T(s) => match seen.iter_mut().find(|(x, _)| x == s) {
+                                Some(e) => e.1 += 1,
+                                None => seen.push((s.clone(), 1)),
+                            },
+                            _ => c.children().into_iter().for_each(|x| count(x, seen)),
+                        }
+                    }
+                    fn rec(c: &mut C, pre: &str, post: &str, seen: &[(String, usize)], n: &mut usize) {
+                        match c {
+                            C::Cfg(_) => {}
+                            C::T(s) => {
+                                let twice = seen.iter().any(|(x, k)| x == s && *k >= 2);
+                                if twice && !s.is_empty() && !s.contains('/') && !s.contains(".stam.") && !s.ends_with(".txt") {
+                                    *s = format!("{}{}{}", pre, s, post);
+                                    *n += 1;
+                                }
+                            }
+                            _ => {
+                                for x in c.children_mut() {
+                                    rec(x, pre, post, seen, n);
+                                }
+                            }
+                        }
+                    }
+                    let mut seen = vec![];
+                    count(&c, &mut seen);
+                    let mut n = 0;
+                    rec(&mut c, &pre, &post, &seen, &mut n);
+                    if n > 0 {
+                        docs[i].1 = c.write();
+                        any = true;
+                    }
+                }
+            }
+            if any {
+                string_features(&format!("{}x{}", pre, post), labels);
+                labels.push("str:renamed-consistently".into());
+            }
+            any
+        }
+        Mutation::FileRename { file, name, via } => {
+            if docs.len() < 2 {
+                return false;
+            }
+            let i = 1 + pick(*file, docs.len() - 1);
+            let old = docs[i].0.clone();
+            let ext = old.find('.').map(|p| &old[p..]).unwrap_or("");
+            let mut stem: String = name.render().chars().filter(|c| !matches!(c, '/' | '\\' | '\0')).collect();
+            while stem.len() + ext.len() > 110 {
+                stem.pop();
+            }
+            let new = format!("{}{}", stem, ext);
+            if new == old || !safe_name(&new) || docs.iter().any(|(n, _)| *n == new) {
+                return false;
+            }
+            docs[i].0 = new.clone();
+            let refer = match via % 3 {
+                0 => Some(new.clone()),
+                1 => Some(format!("./{}", new)),
+                _ => None,
+            };
+            if let Some(refer) = refer {
+                for k in 0..docs.len() {
+                    if docs[k].0.ends_with(".json") {
+                        let Some(mut j) = J::parse(&docs[k].1) else { continue };
+                        let paths = j.paths(&|key, v| key == Some("@include") && matches!(v, J::Str(x) if *x == old));
+                        for p in &paths {
+                            if let Some(J::Str(x)) = j.at_mut(p) {
+                                *x = refer.clone();
+                            }
+                        }
+                        if !paths.is_empty() {
+                            docs[k].1 = j.write().into_bytes();
+                        }
+                    } else if docs[k].0.ends_with(".csv") {
+                        let Some(mut rows) = csv_parse(&docs[k].1) else { continue };
+                        let mut hit = false;
+                        for cell in rows.iter_mut().flatten() {
+                            if *cell == old {
+                                *cell = refer.clone();
+                                hit = true;
+                            }
+                        }
+                        if hit {
+                            docs[k].1 = csv_write(&rows).into_bytes();
+                        }
+                    }
+                }
+            }
+            string_features(&new, labels);
+            true
+        }
+        Mutation::CHead { nth, delta } => apply_l(docs, &Mutation::CLen { class: None, nth: *nth, len: LenChoice::Delta(*delta) }, labels),
         Mutation::JDelete { file, field, nth } => with_json(docs, *file, |j, _, _| {
             let Some(path) = select(j, field, *nth) else { return false };
             let (last, parent) = path.split_last().unwrap();
@@ -1274,12 +1610,14 @@ pub fn apply(docs: &mut DocSet, m: &Mutation) -> bool {
             }
             let path = paths[pick(*nth, paths.len())].clone();
             let len = enclosing_list_len(j, &path);
-            let new = J::Str(resolve_str(val, snapshot, own, len));
+            let text = resolve_str(val, snapshot, own, len);
+            let new = J::Str(text.clone());
             let node = j.at_mut(&path).unwrap();
             if *node == new {
                 return false;
             }
             *node = new;
+            string_features(&text, labels);
             true
         }),
         Mutation::JAdd { file, nth, key, val } => with_json(docs, *file, |j, snapshot, own| {
@@ -1294,7 +1632,9 @@ pub fn apply(docs: &mut DocSet, m: &Mutation) -> bool {
             let path = paths[pick(*nth, paths.len())].clone();
             let k = ADD_KEYS[*key as usize % ADD_KEYS.len()];
             let len = enclosing_list_len(j, &path);
-            let v = J::Str(resolve_str(val, snapshot, own, len));
+            let text = resolve_str(val, snapshot, own, len);
+            string_features(&text, labels);
+            let v = J::Str(text);
             let Some(node) = j.at_mut(&path) else { return false };
             node.insert_front(k, v);
             true
@@ -1427,10 +1767,15 @@ pub fn apply(docs: &mut DocSet, m: &Mutation) -> bool {
                     None => String::new(),
                 },
                 CellChoice::Repeat(n) => vec![old.clone(); 2 + (*n as usize % 6)].join(";"),
+                CellChoice::Hostile(h) => h.render(),
+                CellChoice::AppendHostile(h) => format!("{};{}", old, h.render()),
+                CellChoice::PrependHostile(h) => format!("{};{}", h.render(), old),
+                CellChoice::Wrap(a, b) => format!("{}{}{}", a.render(), old, b.render()),
             };
             if new == old {
                 return false;
             }
+            string_features(&new, labels);
             rows[r][c] = new;
             true
         }),
@@ -1567,86 +1912,227 @@ pub fn apply(docs: &mut DocSet, m: &Mutation) -> bool {
             if new == *s {
                 return false;
             }
+            string_features(&new, labels);
             *s = new;
             true
         }),
-        Mutation::CHead { nth, delta } => {
+        Mutation::CLen { class, nth, len } => {
             // re-encode with one container/string header lying about its length
             let Some(i) = file_index(docs, 0, &[".cbor"]) else { return false };
             let Some(c) = C::parse_stam(&docs[i].1) else { return false };
-            let sized = |x: &C| matches!(x, C::A(_) | C::M(_) | C::T(_) | C::B(_));
-            let n = c.count(&sized);
-            if n == 0 || *delta == 0 {
+            let heads = c.headers();
+            if heads.is_empty() {
                 return false;
             }
-            let target = pick(*nth, n);
-            fn rec(c: &C, out: &mut Vec<u8>, k: &mut usize, target: usize, delta: i8, sized: &dyn Fn(&C) -> bool) {
-                let here = if sized(c) {
-                    let h = *k == target;
-                    *k += 1;
-                    h
-                } else {
-                    false
-                };
-                let adj = |len: usize| -> u64 {
-                    if here {
-                        (len as i64 + delta as i64).max(0) as u64
-                    } else {
-                        len as u64
-                    }
-                };
-                match c {
-                    C::A(v) => {
-                        cbor_head(out, 4, adj(v.len()));
-                        v.iter().for_each(|x| rec(x, out, k, target, delta, sized));
-                    }
-                    C::Cfg(v) => {
-                        cbor_head(out, 4, v.len() as u64 + 1);
-                        v.iter().for_each(|x| rec(x, out, k, target, delta, sized));
-                    }
-                    C::M(v) => {
-                        cbor_head(out, 5, adj(v.len()));
-                        v.iter().for_each(|(a, b)| {
-                            rec(a, out, k, target, delta, sized);
-                            rec(b, out, k, target, delta, sized)
-                        });
-                    }
-                    C::T(s) => {
-                        cbor_head(out, 3, adj(s.len()));
-                        out.extend_from_slice(s.as_bytes());
-                    }
-                    C::B(s) => {
-                        cbor_head(out, 2, adj(s.len()));
-                        out.extend_from_slice(s);
-                    }
-                    C::Tag(t, x) => {
-                        cbor_head(out, 6, *t);
-                        rec(x, out, k, target, delta, sized);
-                    }
-                    C::IndefA(v) => {
-                        out.push(0x9f);
-                        v.iter().for_each(|x| rec(x, out, k, target, delta, sized));
-                        out.push(0xff);
-                    }
-                    C::IndefM(v) => {
-                        out.push(0xbf);
-                        v.iter().for_each(|(a, b)| {
-                            rec(a, out, k, target, delta, sized);
-                            rec(b, out, k, target, delta, sized)
-                        });
-                        out.push(0xff);
-                    }
-                    other => other.write_into(out),
+            let target = match class {
+                None => pick(*nth, heads.len()),
+                Some(k) => {
+                    let mut classes: Vec<&String> = heads.iter().collect();
+                    classes.sort();
+                    classes.dedup();
+                    let cls = classes[pick(*k, classes.len())].clone();
+                    let members: Vec<usize> = heads.iter().enumerate().filter(|(_, h)| **h == cls).map(|(i, _)| i).collect();
+                    members[pick(*nth, members.len())]
                 }
-            }
+            };
             let mut out = vec![];
             let mut k = 0;
-            rec(&c, &mut out, &mut k, target, *delta, &sized);
+            let mut how = "";
+            c.write_lying(&mut out, &mut k, target, len, &mut how);
             if out == docs[i].1 {
                 return false;
             }
             docs[i].1 = out;
+            labels.push(format!("head:{}", heads[target]));
+            labels.push(format!("headlen:{}", how));
             true
+        }
+    }
+}
+
+impl C {
+    fn is_null(&self) -> bool {
+        matches!(self, C::S(22, _) | C::S(23, _))
+    }
+    fn variant(&self) -> u8 {
+        match self {
+            C::U(_) => 0,
+            C::N(_) => 1,
+            C::B(_) => 2,
+            C::T(_) => 3,
+            C::A(_) | C::IndefA(_) => 4,
+            C::Cfg(_) => 5,
+            C::M(_) | C::IndefM(_) => 6,
+            C::Tag(..) => 7,
+            C::S(..) => 8,
+            C::IndefS(..) => 9,
+        }
+    }
+    /// The path class of every definite-length header (array, map, text, bytes) in document order. A class is the
+    /// chain of container kinds from the root; below an array that holds values of different kinds (a record) the
+    /// position is part of the class, below one that holds values of one kind (a list) it is not, below a map the
+    /// step says key or value. So "the second list of an item of a position index" is one class however many items
+    /// there are, and every such class can be aimed at.
+    pub fn headers(&self) -> Vec<String> {
+        fn rec(c: &C, path: &str, out: &mut Vec<String>) {
+            let steps = |v: &Vec<C>, depth0: bool| -> Vec<String> {
+                let mut kinds: Vec<u8> = v.iter().filter(|x| !x.is_null()).map(|x| x.variant()).collect();
+                kinds.sort();
+                kinds.dedup();
+                let record = kinds.len() >= 2 || depth0;
+                (0..v.len()).map(|i| if record { format!("{}", i.min(120)) } else { "*".to_string() }).collect()
+            };
+            match c {
+                C::A(v) => {
+                    out.push(format!("{}A", path));
+                    for (x, st) in v.iter().zip(steps(v, path.is_empty())) {
+                        rec(x, &format!("{}A{}/", path, st), out);
+                    }
+                }
+                C::Cfg(v) => {
+                    out.push(format!("{}Cfg", path));
+                    // the fields of the configuration are one class
+                    for x in v {
+                        rec(x, &format!("{}Cfg/", path), out);
+                    }
+                }
+                C::M(v) => {
+                    out.push(format!("{}M", path));
+                    for (k, x) in v {
+                        rec(k, &format!("{}Mk/", path), out);
+                        rec(x, &format!("{}Mv/", path), out);
+                    }
+                }
+                C::T(_) => out.push(format!("{}T", path)),
+                C::B(_) => out.push(format!("{}B", path)),
+                C::Tag(_, x) => rec(x, &format!("{}Tag/", path), out),
+                C::IndefA(v) => v.iter().for_each(|x| rec(x, &format!("{}IA/", path), out)),
+                C::IndefM(v) => v.iter().for_each(|(k, x)| {
+                    rec(k, &format!("{}IMk/", path), out);
+                    rec(x, &format!("{}IMv/", path), out)
+                }),
+                C::IndefS(_, v) => v.iter().for_each(|x| rec(x, &format!("{}IS/", path), out)),
+                _ => {}
+            }
+        }
+        let mut out = vec![];
+        rec(self, "", &mut out);
+        out
+    }
+
+    /// write the tree with the `target`-th definite-length header (in the order of `headers`) announcing `len`
+    fn write_lying(&self, out: &mut Vec<u8>, k: &mut usize, target: usize, len: &LenChoice, how: &mut &'static str) {
+        let sized = matches!(self, C::A(_) | C::Cfg(_) | C::M(_) | C::T(_) | C::B(_));
+        let here = sized && {
+            let h = *k == target;
+            *k += 1;
+            h
+        };
+        // None = indefinite length
+        let mut adj = |real: u64| -> Option<u64> {
+            if !here {
+                return Some(real);
+            }
+            match len {
+                LenChoice::Delta(d) => {
+                    *how = if *d >= 0 { "a-bit-more" } else { "a-bit-less" };
+                    Some((real as i128 + *d as i128).clamp(0, u64::MAX as i128) as u64)
+                }
+                LenChoice::Abs(i) => {
+                    let v = HEAD_LENS[*i as usize % HEAD_LENS.len()];
+                    *how = if v <= 256 {
+                        "small"
+                    } else if v < 1 << 31 {
+                        "2^16..2^31"
+                    } else if v <= 1 << 32 {
+                        "2^31..2^32"
+                    } else if v < 1 << 63 {
+                        "2^32..2^63"
+                    } else {
+                        "2^63..u64::MAX"
+                    };
+                    Some(v)
+                }
+                LenChoice::Shift(s) => {
+                    *how = "real-times-2^k";
+                    Some(real.max(1).checked_shl(1 + (*s as u32 % 62)).unwrap_or(u64::MAX))
+                }
+                LenChoice::Indef => {
+                    *how = "indefinite";
+                    None
+                }
+            }
+        };
+        match self {
+            C::A(v) | C::Cfg(v) => {
+                let real = v.len() as u64 + if matches!(self, C::Cfg(_)) { 1 } else { 0 };
+                let a = adj(real);
+                match a {
+                    Some(a) => cbor_head(out, 4, a),
+                    None => out.push(0x9f),
+                }
+                v.iter().for_each(|x| x.write_lying(out, k, target, len, how));
+                if a.is_none() {
+                    out.push(0xff);
+                }
+            }
+            C::M(v) => {
+                let a = adj(v.len() as u64);
+                match a {
+                    Some(a) => cbor_head(out, 5, a),
+                    None => out.push(0xbf),
+                }
+                v.iter().for_each(|(x, y)| {
+                    x.write_lying(out, k, target, len, how);
+                    y.write_lying(out, k, target, len, how)
+                });
+                if a.is_none() {
+                    out.push(0xff);
+                }
+            }
+            C::T(_) | C::B(_) => {
+                let (major, bytes): (u8, &[u8]) = match self {
+                    C::T(s) => (3, s.as_bytes()),
+                    C::B(b) => (2, b),
+                    _ => unreachable!(),
+                };
+                match adj(bytes.len() as u64) {
+                    Some(a) => {
+                        cbor_head(out, major, a);
+                        out.extend_from_slice(bytes);
+                    }
+                    None => {
+                        // one definite chunk inside an indefinite-length string
+                        out.push((major << 5) | 31);
+                        cbor_head(out, major, bytes.len() as u64);
+                        out.extend_from_slice(bytes);
+                        out.push(0xff);
+                    }
+                }
+            }
+            C::Tag(t, x) => {
+                cbor_head(out, 6, *t);
+                x.write_lying(out, k, target, len, how);
+            }
+            C::IndefA(v) => {
+                out.push(0x9f);
+                v.iter().for_each(|x| x.write_lying(out, k, target, len, how));
+                out.push(0xff);
+            }
+            C::IndefM(v) => {
+                out.push(0xbf);
+                v.iter().for_each(|(x, y)| {
+                    x.write_lying(out, k, target, len, how);
+                    y.write_lying(out, k, target, len, how)
+                });
+                out.push(0xff);
+            }
+            C::IndefS(major, v) => {
+                out.push((major << 5) | 31);
+                v.iter().for_each(|x| x.write_lying(out, k, target, len, how));
+                out.push(0xff);
+            }
+            other => other.write_into(out),
         }
     }
 }
